@@ -248,6 +248,12 @@ func (w *c15World) mutexParked() bool {
 }
 
 func (w *c15World) twoStreams(k int, val string, viaReload bool) {
+	if len(w.subs) == 2 && len(w.live) == 1 && w.pending() == 0 {
+		// the implementation serves both subscribers of the key from one watch stream:
+		// the out-of-step schedule does not exist there
+		w.m.Count("two_stream_schedule_not_applicable_single_stream", 1)
+		return
+	}
 	if len(w.live) != 2 || len(w.subs) != 2 || w.pending() != 0 {
 		w.inconclusive("two-stream scenario not set up (live=%d subs=%d pending=%d)", len(w.live), len(w.subs), w.pending())
 		return
